@@ -8,15 +8,15 @@ import overlay
 
 TRUST = ("Trusted base: Kani 0.68 / CBMC 6.11 / CaDiCaL, dev-profile semantics, 64-bit usize; the library models "
          "(slot-array HashMap, ordered LevelDB iterator, sequential rayon, ghost fs/process/time) and kani::stubs with the contracts "
-         "of DESIGN.md §1.5; harness oracles written from the property text. ")
+         "of DESIGN.md §1.5 / §9.2, incl. the structured model of `format!`/`println!` for `{}` and `{: <N}` (cross-checked natively against core::fmt by bin/modeltest and in every native replay); harness oracles written from the property text. ")
 
 P = {
  "C01": dict(claimed=True, tech="bounded model checking (Kani/CBMC): parser + serializer round-trip harnesses, symbolic content over enumerated shapes",
-   text="For every byte content inside each enumerated transaction/block shape, the real read_* functions return fields equal to the LE slices at oracle-computed offsets, ToRaw re-serialization equals the witness-stripped input, CompactSize decode is complete for all 9-byte inputs, and CsvDump::on_block emits one row per item in order. Bounded, not a proof.",
+   text="For every byte content inside each enumerated transaction/block shape, the real read_* functions return fields equal to the LE slices at oracle-computed offsets, ToRaw re-serialization equals the witness-stripped input, CompactSize decode is complete for all 9-byte inputs, and CsvDump::on_block emits one row per item in order (thorough: the four rows' text for one block/tx/input/output with concrete distinct values, column by column). Bounded, not a proof.",
    note="Outside: SHA-256 itself (uninterpreted), integer Display beyond the sampled digits, shapes beyond the listed counts/lengths."),
  "C02": dict(claimed=True, tech="bounded model checking (Kani/CBMC): assume-guarantee decomposition of the driver loop",
-   text="BlockHeightRange::new, ChainIndex::new (clamp/trim over full-width u64 start/end), one ChainStorage::get_block step and BlockchainParser::start with a recording callback are checked for every start/end within small chain lengths; file names rendered by the three on_complete implementations.",
-   note="Outside: chains longer than the bound (number of blocks), real callbacks' outputs (other properties)."),
+   text="BlockHeightRange::new, ChainIndex::new (clamp/trim over full-width u64 start/end), one ChainStorage::get_block step and BlockchainParser::start with a recording callback are checked for every start/end within small chain lengths; the file names produced by the three on_complete implementations are compared byte for byte for concrete (start,last) pairs (quick) and for every pair below 1000 (CsvDump, thorough), formatting through the structured format model.",
+   note="Outside: chains longer than the bound (number of blocks), real callbacks' outputs (other properties), core::fmt itself (modelled), the two-run slice comparison."),
  "C03": dict(claimed=True, tech="bounded model checking (Kani/CBMC): differential harness against Bitcoin Core's VarInt reference + dispatch/seek harnesses",
    text="read_varint equals the Core reference on every <=10-byte input; index records decode field-by-field; get_block asks the file/offset named by the record; read_block reads the size prefix and header at that offset regardless of the previous reader position.",
    note="Outside: directory enumeration and symlink resolution (real FS), hundreds of files."),
@@ -30,10 +30,10 @@ P = {
    text="One maybe_push_data step from any position of any <=12-byte script follows Bitcoin push rules; eval on enumerated opcode structures with symbolic payloads yields the template types and Base58Check payloads of the property.",
    note="Outside: free-form scripts with symbolic opcodes at every position (OOM), Base58 digit conversion, SHA/RIPEMD (uninterpreted)."),
  "C07": dict(claimed=True, tech="bounded model checking (Kani/CBMC) of remove_unspents/insert_unspents against a flat alive-table oracle",
-   text="For every 2-block history within the bound (symbolic txids, indices, values, addresses, spend targets) the final map equals the oracle's alive address-bearing outputs; key round trip; one row per entry.",
+   text="For every 2-block history within the bound (symbolic txids, indices, values, addresses, spend targets) the final map equals the oracle's alive address-bearing outputs; key round trip; one row per entry, the row text (txid;index;height;value;address with one-digit numbers) byte for byte through the format model.",
    note="Outside: long histories; rendering of wide integers."),
  "C08": dict(claimed=True, tech="bounded model checking (Kani/CBMC) of Balances::{on_block,on_complete}",
-   text="Balances and UnspentCsvDump leave equal maps on the same blocks; on_complete writes one line per distinct address with the exact sum.",
+   text="Balances and UnspentCsvDump leave equal maps on the same blocks; on_complete writes one line per distinct address with the exact sum (line text compared byte for byte for two concrete address patterns with symbolic values, format model).",
    note="Outside: more than 3 outputs per address; decimal rendering of wide sums."),
  "C09": dict(claimed=True, tech="bounded model checking (Kani/CBMC) with uninterpreted hash + call log",
    text="merkle_root follows Bitcoin's schedule for n<=5 (9 thorough) leaves; ChainStorage::verify accepts iff merkle, prev-hash/genesis conditions hold; failure stops the driver with exit 1 before on_complete.",
@@ -54,7 +54,7 @@ P = {
    text="get_mean equals the exact u64-sum mean (bit-exact IEEE division) for every slice of <=4 u32; get_base_reward and the accumulators of SimpleStats::on_block equal an in-harness recomputation for every symbolic block content within the bound.",
    note="Partial: the text report's float formatting ({:.2}/{:.8}) is outside (float-to-decimal is out of reach for bit-blasting)."),
  "C16": dict(claimed=True, tech="bounded model checking (Kani/CBMC) of OP_RETURN payload extraction on both script paths",
-   text="For each push form and payload length within the bound and every payload content, the OpReturn text equals the pushed payload (valid UTF-8) or is empty; OpReturn::on_block prints exactly the non-empty ones in order.",
+   text="For each push form and payload length within the bound and every payload content, the OpReturn text equals the pushed payload (valid UTF-8) or is empty; OpReturn::on_block prints exactly the non-empty ones in order (the printed lines compared byte for byte, format model).",
    note="Outside: payloads of thousands of bytes."),
  "C17": dict(claimed=True, tech="bounded model checking (Kani/CBMC): one inductive step of the close rule from an arbitrary invariant-satisfying state",
    text="One get_block step from any open/closed state satisfying the invariant re-establishes it for the next height, for every layout of <=4 heights over 2-3 files.",
